@@ -578,6 +578,14 @@ class TransferManager(BaseManager):
         # Uploads should be initialized and uploaded if possible
         for upload in uploads[:free_upload_slots]:
             if _is_running(upload._transfer_task):
+                # The previous task of this upload has not ended yet: it is
+                # still reporting a failure to the downloader, who queued the
+                # file again in the meantime. No state change follows when it
+                # ends: look at the queue again at that moment, otherwise the
+                # upload stays queued until something else happens
+                upload._transfer_task.add_done_callback(
+                    self._on_passed_over_task_done
+                )
                 continue
 
             upload._transfer_task = asyncio.create_task(
@@ -587,6 +595,9 @@ class TransferManager(BaseManager):
             upload._transfer_task.add_done_callback(
                 upload._transfer_task_complete
             )
+
+    def _on_passed_over_task_done(self, task: asyncio.Task):
+        self.request_management_cycle(_RequestFlag.TRANSFER_CHANGE)
 
     async def manage_shares_changed(self):
         logger.debug("processing shares or block list changes")
